@@ -98,6 +98,7 @@ def server_variants(tier_thorough, n, seed=1):
     return v
 
 
+STALE_AGES = [7200, 3 * 86400, 400 * 86400, 90000]
 PRIORS = ["absent", "fresh", "stale", "stale-bad", "fresh-bad"]
 
 
@@ -112,6 +113,9 @@ def build_matrix(thorough, n, seed=1):
             for entry in entries:
                 scns.append({"prior": prior, "server": dict(plan, name=sname), "entry": entry,
                              "cfg": {"enabled": True, "fetch_on_startup": True}, "kill": None})
+                # "previous contents" however old: a stale file of two hours, three days, over a year
+                if prior.startswith("stale"):
+                    scns[-1]["age"] = STALE_AGES[len(scns) % len(STALE_AGES)]
     # configuration corners and a modification time in the future (model correspondence)
     full = {"kind": "full", "status": 200, "pieces": [], "name": "200-complete"}
     r404 = {"kind": "full", "status": 404, "error_body": True, "name": "404"}
@@ -158,6 +162,8 @@ def scn_key(s):
     k = "%s|%s|%s" % (s["prior"], s["server"]["name"], s["entry"])
     if not (s["cfg"]["enabled"] and s["cfg"]["fetch_on_startup"]):
         k += "|enabled=%d,fetch_on_startup=%d" % (s["cfg"]["enabled"], s["cfg"]["fetch_on_startup"])
+    if s.get("age", 7200) != 7200:
+        k += "|age=%ds" % s["age"]
     if s.get("kill"):
         kl = s["kill"]
         k += "|kill:" + ("%s#%d" % (kl["syscall"], kl["when"]) if "syscall" in kl else "watch@%d" % kl["watch"])
@@ -198,7 +204,7 @@ class Runner:
             return b"<html>error %d from the fault server</html>\n" % plan.get("status", 0)
         return plan.get("_body") or self.ct.new
 
-    def setup(self, root, prior, cfg, url, timeout):
+    def setup(self, root, prior, cfg, url, timeout, age=7200):
         shutil.rmtree(root, ignore_errors=True)
         for d in ("config/rink", "cache", "home", "cwd"):
             os.makedirs(os.path.join(root, d))
@@ -212,7 +218,7 @@ class Runner:
                 f.write(pb)
             now = time.time()
             if prior.startswith("stale"):
-                os.utime(p, (now - 7200, now - 7200))
+                os.utime(p, (now - age, now - age))
             elif prior == "future":
                 os.utime(p, (now + 86400, now + 86400))
 
@@ -272,7 +278,7 @@ class Runner:
         kill = scn.get("kill")
         timeout = "800ms" if kind == "stall" and not (kill and "watch" in kill) else "20s"
         url = "http://127.0.0.1:%d/data/currency.json" % (fault_http.closed_port() if kind == "refused" else srv.port)
-        self.setup(root, scn["prior"], scn["cfg"], url, timeout)
+        self.setup(root, scn["prior"], scn["cfg"], url, timeout, scn.get("age", 7200))
         p = dict(plan, body=body)
         if kill and "watch" in kill:
             p["hold"] = 60.0
